@@ -275,6 +275,9 @@ pub struct Kfs {
     pub vanish_a_at_dstat: bool, // a peer unlinks key `a` between readdir and stat
     pub op_begun: bool,
     pub env_seq: u16,
+    pub stray_reads: u8,
+    pub trigger_fired: bool,
+    pub trigger_mode: u8, // 0: symbolic, 1: never fires, 2: always fires (only with the event stub)
 }
 
 pub static mut K: Kfs = Kfs {
@@ -306,6 +309,9 @@ pub static mut K: Kfs = Kfs {
     vanish_a_at_dstat: false,
     op_begun: false,
     env_seq: 0,
+    stray_reads: 0,
+    trigger_fired: false,
+    trigger_mode: 0,
 };
 
 // ---- scenario dump (replay support) -----------------------------------------------------------------
@@ -617,14 +623,17 @@ pub fn key_slot(s: u8) -> bool {
 }
 
 /// V for the whole tree: every key-named file is a complete read-only value for that key.
+/// (Cache directories of the universe that harnesses use: the three plain roots and the shards
+/// of the first sharded root; nothing else can be written - every mutating stub classifies its
+/// target and rejects paths outside the universe.)
 pub fn tree_valid() -> bool {
-    let mut d = 0u8;
+    let dirs = [D_W, D_R, D_Q, d_shard(0, 0), d_shard(0, 1), d_shard(0, 2)];
     let mut ok = true;
-    while (d as usize) < ND {
-        if dir_kind(d) == KIND_CACHE {
-            ok = ok && entry_valid(d, S_A) && entry_valid(d, S_B) && entry_valid(d, S_C);
-        }
-        d += 1;
+    let mut j = 0;
+    while j < dirs.len() {
+        let d = dirs[j];
+        ok = ok && entry_valid(d, S_A) && entry_valid(d, S_B) && entry_valid(d, S_C);
+        j += 1;
     }
     ok
 }
@@ -936,7 +945,9 @@ pub fn s_metadata<P: AsRef<Path>>(path: P) -> io::Result<Metadata> {
         return Err(err(e));
     }
     if !loc.ok {
-        stray(path.as_ref());
+        // a read-only probe of a name outside the universe finds nothing (only mutating calls are
+        // confinement violations)
+        k().stray_reads += 1;
         return Err(err(ENOENT));
     }
     let st = k();
@@ -1385,7 +1396,7 @@ pub fn s_file_open<P: AsRef<Path>>(path: P) -> io::Result<File> {
         return Err(err(e));
     }
     if !loc.ok || loc.slot == NONE {
-        stray(path.as_ref());
+        k().stray_reads += 1;
         return Err(err(ENOENT));
     }
     let i = lookup(loc);
@@ -1675,6 +1686,32 @@ pub fn s_vec_new<T>() -> Vec<T> {
     Vec::with_capacity(8)
 }
 
+/// Stub of `PeriodicTrigger::event` for harnesses that need to know whether maintenance was due
+/// (the real countdown is decided for all periods and draws by engine M, obligation c10_trigger).
+pub fn s_trigger_event(_t: crate::trigger::PeriodicTrigger) -> bool {
+    let st = k();
+    let f: bool = match st.trigger_mode {
+        1 => false,
+        2 => true,
+        _ => kani::any(),
+    };
+    st.trigger_fired = st.trigger_fired || f;
+    f
+}
+
+/// Number of mutating calls so far (everything except stat/open/read/readdir).
+pub fn mutating_calls() -> u16 {
+    let st = k();
+    let ks = [C_CHMOD, C_RENAME, C_LINK, C_UNLINK, C_MKDIR, C_FSYNC, C_UTIMES, C_FUTIMES, C_MKTEMP, C_FCHMOD, C_COPY];
+    let mut n = 0u16;
+    let mut i = 0;
+    while i < ks.len() {
+        n += st.kind_calls[ks[i] as usize] as u16;
+        i += 1;
+    }
+    n
+}
+
 // ---- formatting ---------------------------------------------------------------------------------
 /// `sharded::format_id` without the `format!` machinery (whose runtime template parser makes
 /// symbolic execution crawl): ".kismet_" + four lowercase hex digits.  The real `format_id` is
@@ -1732,6 +1769,9 @@ pub fn reset() {
     st.vanish_a_at_dstat = false;
     st.op_begun = false;
     st.env_seq = 0;
+    st.stray_reads = 0;
+    st.trigger_fired = false;
+    st.trigger_mode = 0;
     unsafe { DUMPN = 0; }
     let (s, ns) = any_time();
     st.now_s = s;
